@@ -18,32 +18,6 @@ PATH = List(Obj("Sol"))
 
 
 def register(reg):
-    @reg.external("copy.deepcopy")
-    def deepcopy(eng, st, ctx, args, kw, node):
-        """deepcopy of a row (dict str -> value): same keys; scalar values equal; every contained dictionary is a fresh dictionary
-        with the same content (contained lists: fresh, content not tracked)"""
-        x = args[0]
-        if x.ty != ROW:
-            raise Unsupported("deepcopy of %r" % x.ty)
-        dom, val = st.dict_dom(ROW, x.t), st.dict_val(ROW, x.t)
-        r = st.new_ref()
-        nv = z3.Const(fresh_name("dcval"), val.sort())
-        cp = z3.Function(fresh_name("dcref"), S, I)
-        k, k2 = z3.Const(fresh_name("k"), S), z3.Const(fresh_name("k2"), S)
-        lo = st.alloc
-        hi = z3.Int(fresh_name("alloc"))
-        st.assume(hi >= lo)
-        st.assume(z3.ForAll([k], z3.If(Val.is_VRef(val[k]), z3.And(nv[k] == Val.VRef(cp(k)), lo <= cp(k), cp(k) < hi), nv[k] == val[k]),
-                            patterns=[nv[k]]))
-        st.assume(z3.ForAll([k, k2], z3.Implies(z3.And(k != k2, Val.is_VRef(val[k]), Val.is_VRef(val[k2])), cp(k) != cp(k2))))
-        # contained composition dictionaries keep their content
-        for name, sort in (("D.str.int.dom", z3.ArraySort(I, z3.ArraySort(S, B))), ("D.str.int.val", z3.ArraySort(I, z3.ArraySort(S, I)))):
-            a = st.arr(name, sort)
-            st.assume(z3.ForAll([k], z3.Implies(Val.is_VRef(val[k]), a[cp(k)] == a[Val.ref(val[k])]), patterns=[a[cp(k)]]))
-        st.alloc = hi
-        st.set_dict(ROW, r, dom, nv)
-        return SV(ROW, r)
-
     reg.classdecl("SyntheticRuleImputer", {})
     reg.contract(F, "SyntheticRuleImputer.get_and_validate_smiles", params={"solution": PATH}, returns=Ty("opt", STR), assumed=True,
                  note="joins the compounds of a completion ('.'-separated, each repeated Ratio times) and keeps the text only if RDKit parses it",
